@@ -216,7 +216,8 @@ def check(prog, run):
     q = ast.unparse(pops[0].func.value)
     qdef = [n for n in own_nodes(f.node) if isinstance(n, ast.Assign) and ast.unparse(n.targets[0]) == q]
     r.instance("queue `%s`" % (norm_stmt(qdef[0]) if qdef else None))
-    if len(qdef) != 1 or "_iterate_fields" not in ast.unparse(qdef[0].value) or any(w in ast.unparse(qdef[0].value) for w in ("sorted", "reversed", "set(", "[::-1]")):
+    qtxt = scn.text(qdef[0].value) if qdef else ""     # canonical: a named intermediate step is seen through
+    if len(qdef) != 1 or "_iterate_fields" not in qtxt or any(w in qtxt for w in ("sorted", "reversed", "set(", "[::-1]")):
         run.report(r, "%s:Executor.execute_fields_serially:queue" % EXE, f.where(), "the queue is not list(self._iterate_fields(...)) in iteration order")
     # exhaustion returns the mapping that the continuation stores into
     stores = [n for n in own_nodes(cb.node) if isinstance(n, ast.Assign) and isinstance(n.targets[0], ast.Subscript)]
